@@ -113,7 +113,7 @@ fn build<Ctx: ScriptContext>(n: &Node, strict: bool) -> Option<SMs<Ctx>> {
 fn raw_table() -> &'static BTreeMap<Vec<u8>, u32> {
     use miniscript::bitcoin::hashes::Hash as _;
     static T: std::sync::OnceLock<BTreeMap<Vec<u8>, u32>> = std::sync::OnceLock::new();
-    T.get_or_init(|| (0..10).chain(200..210).map(|h| (ast::raw_pkh(h).to_byte_array().to_vec(), h)).collect())
+    T.get_or_init(|| (0..10).chain(100..110).chain(200..210).map(|h| (ast::raw_pkh(h).to_byte_array().to_vec(), h)).collect())
 }
 
 /// back to the neutral AST
@@ -174,7 +174,7 @@ fn guarded<R>(f: impl FnOnce() -> R) -> Option<R> { catch_unwind(AssertUnwindSaf
 
 /// what the library says about a pair
 #[derive(Clone, Debug)]
-struct Obs { eq: String, cmp: String, hash: String, disp: String }
+struct Obs { eq: String, cmp: String, hash: String, disp: String, pc: String }
 
 fn observe<T: Eq + Ord + Hash + ToString>(a: &T, b: &T) -> Obs { observe_with(a, b, &|a, b| hash_same(a, b)) }
 
@@ -184,6 +184,12 @@ fn observe_with<T: Eq + Ord + ToString>(a: &T, b: &T, hash_same: &dyn Fn(&T, &T)
         cmp: guarded(|| ord_str(a.cmp(b))).unwrap_or("PANIC").to_string(),
         hash: guarded(|| if hash_same(a, b) { "same" } else { "diff" }).unwrap_or("PANIC").to_string(),
         disp: guarded(|| if a.to_string() == b.to_string() { "1" } else { "0" }).unwrap_or("PANIC").to_string(),
+        // `PartialOrd`: partial_cmp and the four operators `<`, `<=`, `>`, `>=`
+        pc: guarded(|| {
+            let b01 = |x: bool| if x { '1' } else { '0' };
+            let pc = match a.partial_cmp(b) { Some(o) => ord_str(o), None => "none" };
+            format!("{}/{}{}{}{}", pc, b01(a < b), b01(a <= b), b01(a > b), b01(a >= b))
+        }).unwrap_or("PANIC".to_string()),
     }
 }
 
@@ -197,6 +203,7 @@ fn pair_ok(same: bool, o: &Obs) -> bool {
         && (o.cmp == "eq") == eq
         && (!eq || o.hash == "same")
         && (o.disp == "1") == eq
+        && o.pc == match o.cmp.as_str() { "lt" => "lt/1100", "eq" => "eq/0101", _ => "gt/0011" }
 }
 
 fn obs_nodes<Ctx: ScriptContext>(a: &Node, b: &Node, strict: bool) -> Option<Obs> {
@@ -534,7 +541,7 @@ fn emit_pair(e: &mut Emit, ctx: CtxK, a: &Node, b: &Node, tag: &str) {
     e.out.line(&format!("C mscmp {} {} {}", c, wa, wb), &o.cmp);
     e.out.line(&format!("C mshash {} {} {}", c, wa, wb), &o.hash);
     if pair_ok(a == b, &o) {
-        e.out.line(&format!("J eqstruct {} {} {} {} {} {} {}", c, wa, wb, o.eq, o.cmp, o.hash, o.disp), "ok");
+        e.out.line(&format!("J eqstruct {} {} {} {} {} {} {} {}", c, wa, wb, o.eq, o.cmp, o.hash, o.disp, o.pc), "ok");
     } else {
         e.out.count(&format!("pair-fails {}", tag));
         // shrink (with well-typed objects whenever the pair itself is well-typed)
@@ -545,7 +552,7 @@ fn emit_pair(e: &mut Emit, ctx: CtxK, a: &Node, b: &Node, tag: &str) {
         };
         let key = format!("{} {} {}", sc.name(), sa.wire(), sb.wire());
         if e.seen_shrunk.insert(key.clone()) {
-            e.out.line(&format!("J eqstruct {} {} {} {} {}", key, so.eq, so.cmp, so.hash, so.disp), "ok");
+            e.out.line(&format!("J eqstruct {} {} {} {} {} {}", key, so.eq, so.cmp, so.hash, so.disp, so.pc), "ok");
         }
     }
 }
@@ -576,6 +583,19 @@ fn clone_node<Ctx: ScriptContext>(a: &Node) -> Option<(String, String)> {
         Some((w, eq)) => (w, eq.to_string()),
         None => ("PANIC".into(), "PANIC".into()),
     })
+}
+/// `==` / `cmp` / `hash` "depend only on the node": the well-typed object against the SAME node
+/// with other type information (`from_components_unchecked(node, Type::FALSE, ExtData::FALSE)`)
+fn twin_obs<Ctx: ScriptContext>(a: &Node) -> Option<Obs> {
+    let x = build::<Ctx>(a, true)?;
+    let y = Miniscript::from_components_unchecked(x.node.clone(), Type::FALSE, ExtData::FALSE);
+    Some(if a.size() % 2 == 0 { observe(&x, &y) } else { observe(&y, &x) })
+}
+fn emit_untyped_twin(e: &mut Emit, ctx: CtxK, a: &Node) {
+    if let Some(o) = with_sctx!(ctx, twin_obs(a)) {
+        e.out.count("pair untyped-twin");
+        e.out.line(&format!("J eqstruct {} {} {} {} {} {} {} {}", ctx.name(), a.wire(), a.wire(), o.eq, o.cmp, o.hash, o.disp, o.pc), "ok");
+    }
 }
 fn emit_clone(e: &mut Emit, ctx: CtxK, a: &Node) {
     if let Some((w, eq)) = with_sctx!(ctx, clone_node(a)) {
@@ -616,7 +636,7 @@ fn emit_str_family<T: Eq + Ord + ToString + Clone>(e: &mut Emit, fam: &str, item
         for (sb, b) in items {
             let o = observe_with(a, b, hs);
             e.out.count(&format!("strpair {}", fam));
-            e.out.line(&format!("J eqstruct {} {} {} {} {} {} {}", fam, sa, sb, o.eq, o.cmp, o.hash, o.disp), "ok");
+            e.out.line(&format!("J eqstruct {} {} {} {} {} {} {} {}", fam, sa, sb, o.eq, o.cmp, o.hash, o.disp, o.pc), "ok");
         }
         let (cs, ceq) = match guarded(|| { let y = a.clone(); (y.to_string(), if &y == a { "1" } else { "0" }) }) {
             Some((s, q)) => (s, q.to_string()), None => ("PANIC".into(), "PANIC".into()),
@@ -675,6 +695,8 @@ fn descriptor_strings() -> Vec<String> {
         v.push(format!("sh(wsh({}))", m));
         v.push(format!("tr(I,{})", m.replace("multi(", "multi_a(")));
     }
+    // `Descriptor::Bare` over a miniscript that is not a plain pk (vs sh / wsh of the same ms)
+    for m in ["multi(1,A,B)", "multi(2,A,B)", "multi(1,B,A)", "multi(1,A,B,C)", "pk(A)", "pk(B)", "and_v(v:pk(A),pk(B))"] { v.push(m.to_string()); }
     for m in ["multi(1,A,B)", "multi(2,A,B)", "multi(1,B,A)", "sortedmulti(1,A,B)", "multi(1,A,B,C)"] {
         v.push(format!("wsh({})", m));
         v.push(format!("sh({})", m));
@@ -700,6 +722,8 @@ fn concrete_strings() -> Vec<String> {
      "sha256(0000000000000000000000000000000000000000000000000000000000000001)",
      "hash256(0000000000000000000000000000000000000000000000000000000000000001)",
      "ripemd160(0000000000000000000000000000000000000001)", "hash160(0000000000000000000000000000000000000001)",
+     "hash256(0000000000000000000000000000000000000000000000000000000000000002)", "sha256(0000000000000000000000000000000000000000000000000000000000000002)", "ripemd160(0000000000000000000000000000000000000002)", "hash160(0000000000000000000000000000000000000002)", "and(pk(A),hash256(0000000000000000000000000000000000000000000000000000000000000001))", "and(pk(A),hash256(0000000000000000000000000000000000000000000000000000000000000002))", "and(pk(A),ripemd160(0000000000000000000000000000000000000001))", "and(pk(A),ripemd160(0000000000000000000000000000000000000002))", "and(pk(A),hash160(0000000000000000000000000000000000000001))", "and(pk(A),hash160(0000000000000000000000000000000000000002))",
+     "or(0@pk(A),1@pk(B))", "or(2@pk(A),4@pk(B))", "or(1@pk(A),0@pk(B))",
      "and(pk(A),pk(B))", "and(pk(B),pk(A))", "or(pk(A),pk(B))", "or(1@pk(A),2@pk(B))", "or(2@pk(A),1@pk(B))",
      "thresh(1,pk(A),pk(B))", "thresh(2,pk(A),pk(B))", "thresh(2,pk(A),pk(B),pk(C))", "thresh(1,pk(A),pk(B),pk(C))",
      "and(pk(A),or(pk(B),pk(C)))", "and(or(pk(B),pk(C)),pk(A))", "and(pk(A),and(pk(B),pk(C)))",
@@ -712,6 +736,7 @@ fn semantic_strings() -> Vec<String> {
      "older(5)", "older(65541)", "older(4194309)", "older(4259845)", "older(1)", "older(65537)", "after(9)", "after(1000000000)", "after(500000100)", "after(65636)", "and(pk(A),older(65541))", "and(pk(A),older(5))", "or(pk(A),after(1000000000))", "or(pk(A),after(9))",
      "sha256(0000000000000000000000000000000000000000000000000000000000000001)",
      "hash256(0000000000000000000000000000000000000000000000000000000000000001)",
+     "hash256(0000000000000000000000000000000000000000000000000000000000000002)", "sha256(0000000000000000000000000000000000000000000000000000000000000002)", "ripemd160(0000000000000000000000000000000000000001)", "ripemd160(0000000000000000000000000000000000000002)", "hash160(0000000000000000000000000000000000000001)", "hash160(0000000000000000000000000000000000000002)", "and(pk(A),hash256(0000000000000000000000000000000000000000000000000000000000000002))", "and(pk(A),ripemd160(0000000000000000000000000000000000000001))", "and(pk(A),ripemd160(0000000000000000000000000000000000000002))", "and(pk(A),hash160(0000000000000000000000000000000000000001))", "and(pk(A),hash160(0000000000000000000000000000000000000002))",
      "and(pk(A),pk(B))", "and(pk(B),pk(A))", "or(pk(A),pk(B))", "or(pk(B),pk(A))",
      "thresh(2,pk(A),pk(B),pk(C))", "thresh(1,pk(A),pk(B),pk(C))", "thresh(3,pk(A),pk(B),pk(C))",
      "thresh(2,pk(A),pk(B),pk(C),pk(D))", "and(pk(A),or(pk(B),pk(C)))", "or(pk(A),and(pk(B),older(5)))",
@@ -737,7 +762,7 @@ pub fn run(out: &mut Out, thorough: bool, seed: u64) {
                 e.out.line(&format!("C mseq {} {} {}", c, a.wire(), b.wire()), &o.eq);
                 e.out.line(&format!("C mscmp {} {} {}", c, a.wire(), b.wire()), &o.cmp);
                 e.out.line(&format!("C mshash {} {} {}", c, a.wire(), b.wire()), &o.hash);
-                e.out.line(&format!("J eqstruct {} {} {} {} {} {} {}", c, a.wire(), b.wire(), o.eq, o.cmp, o.hash, o.disp), "ok");
+                e.out.line(&format!("J eqstruct {} {} {} {} {} {} {} {}", c, a.wire(), b.wire(), o.eq, o.cmp, o.hash, o.disp, o.pc), "ok");
             }
         }
         let atoms = ast::default_atoms(ctx, false);
@@ -777,6 +802,7 @@ pub fn run(out: &mut Out, thorough: bool, seed: u64) {
             let sz = 8 + rng.below(20);
             if let Some(n) = ast::random_b(ctx, &mut rng, sz) { frags.push(n); }
         }
+        frags.extend(ast::dimension_corpus(ctx));
         let mut seen = BTreeSet::new();
         frags.retain(|n| seen.insert(n.wire()));
         let cap_nb = if thorough { 60 } else { 14 };
@@ -786,6 +812,7 @@ pub fn run(out: &mut Out, thorough: bool, seed: u64) {
             x.count_frags(e.out);
             emit_pair(&mut e, ctx, x, x, "identical");
             emit_clone(&mut e, ctx, x);
+            emit_untyped_twin(&mut e, ctx, x);
             let mut nb = neighbours(x, base);
             // all edits of the kinds that matter most, a sample of the rest
             let (must, mut rest): (Vec<_>, Vec<_>) = nb.drain(..).partition(|(t, _)| t.starts_with("thresh") || t.starts_with("multi") || t.starts_with("sugar") || *t == "sorted");
@@ -840,10 +867,10 @@ pub fn run(out: &mut Out, thorough: bool, seed: u64) {
                 let cached = tr.clone();
                 let _ = guarded(|| cached.spend_info());
                 let o = observe(&fresh, &cached);
-                e.out.line(&format!("J eqstruct tr-cache {} {} {} {} {} {}", s, s, o.eq, o.cmp, o.hash, o.disp), "ok");
+                e.out.line(&format!("J eqstruct tr-cache {} {} {} {} {} {} {}", s, s, o.eq, o.cmp, o.hash, o.disp, o.pc), "ok");
                 let c2 = cached.clone();
                 let o = observe(&c2, &fresh);
-                e.out.line(&format!("J eqstruct tr-cache-clone {} {} {} {} {} {}", s, s, o.eq, o.cmp, o.hash, o.disp), "ok");
+                e.out.line(&format!("J eqstruct tr-cache-clone {} {} {} {} {} {} {}", s, s, o.eq, o.cmp, o.hash, o.disp, o.pc), "ok");
             } else { e.out.count("tr-cache unparsed"); }
         }
     }
